@@ -510,6 +510,51 @@ def rule_nil_at_pop(ctx, rep, config="c-lib"):
     rep.floor("C03-nil-pop", "placements of the NIL node by place_translation", n, 1)
 
 
+def rule_place_only(ctx, rep, config="c-lib"):
+    rep.rule("C03-place", "make_parse writes a translation into a child slot of an abstract node through place_translation (which appends an alternative when the slot is "
+                          "taken); a direct store of a node into a slot is either the NULL initialisation of a fresh node or is controlled by `this slot == NULL' (the "
+                          "NIL fix-up at pop) -- a direct store elsewhere overwrites the alternatives already collected in the slot")
+    from .r5 import _controlling_conditions
+    from ..model import strip_int_casts as _sic
+    p = ctx.prog(config)
+    f = p.fn("make_parse")
+    rep.cover(p, [f.name])
+    n = 0
+    for s_ in f.all_insts():
+        if s_.op != "store":
+            continue
+        pa = resolve_addr(f, s_.ops[1])
+        if pa.root[0] != "val" or not pa.steps or pa.steps[-1][0] not in ("idx", "ptr"):
+            continue
+        b = loaded_from(f, pa.root[1])
+        if b is None or b.last_field() != "yaep_anode.children":
+            continue
+        if strip_casts(f, s_.ops[0]).get("k") == "null":
+            continue
+        n += 1
+        key = "make_parse/direct-slot-store#%d" % n
+        guarded = False
+        for (cc, pol) in _controlling_conditions(f, s_.block.name):
+            if cc.d["pred"] not in ("eq", "ne") or (cc.d["pred"] == "eq") != pol:
+                continue
+            if not any(strip_casts(f, o).get("k") == "null" for o in cc.ops):
+                continue
+            for o in cc.ops:
+                l_ = f.inst(strip_casts(f, o))
+                if l_ is not None and l_.op == "load":
+                    qa = resolve_addr(f, l_.ops[0])
+                    qb = loaded_from(f, qa.root[1]) if qa.root[0] == "val" else None
+                    if qb is not None and qb.last_field() == "yaep_anode.children" and qa.steps and qa.steps[-1][0] == pa.steps[-1][0] \
+                            and _sic(f, qa.steps[-1][1]) == _sic(f, pa.steps[-1][1]):
+                        guarded = True
+        if guarded:
+            rep.ok("C03-place", key, sample={"store": s_.where(), "guard": "slot == NULL"})
+        else:
+            rep.violation("C03-place", key, "a node is stored straight into a child slot of an abstract node, not through place_translation and not under `slot == NULL': "
+                          "when all parses are built the alternatives already placed in the slot are overwritten (translations lost)", where=s_.where(), witness=[s_.where()])
+    rep.floor("C03-place", "direct stores of a node into a child slot", n, 1)
+
+
 def rule_copy_slots(ctx, rep, config="c-lib"):
     rep.rule("C03-copy-slots", "copy_anode keeps every child of the original except the slot that is being filled: every comparison of the child index with the `disp' "
                                "parameter inside copy_anode is an equality (a relational test empties the slots on one side of it -- translations already placed there "
